@@ -1828,7 +1828,9 @@ def check_ranges(ctx, exe, d, n_strings, n_big):
             if not found:
                 # every case passes alone: a time-out of the whole chunk on a loaded machine, or a hang that needs the sequence.  Decide by
                 # running the group once more, alone, with a long time limit
-                again = scm.run_cases(d, [e], prelude_extra=prelude, imports=IMPORTS, chunk=1, timeout=300)[0]
+                # (time limit: what the cases were allowed one by one, summed -- on a loaded machine a group of big sweeps needs more than any fixed limit)
+                again = scm.run_cases(d, [e], prelude_extra=prelude, imports=IMPORTS, chunk=1,
+                                      timeout=min(3600, max(300, len(g) * (30 if not ctx.thorough else 150))))[0]
                 fa = parse_fields(again) if again and not again.startswith(("TIMEOUT", "CRASH", "ERR")) else None
                 if fa is not None and len(fa) == len(g) and all(c[0] == "cf" or fa[k] == c[2] for k, c in enumerate(g)):
                     ctx.note("range stream: a chunk timed out (loaded machine); the group passed when re-run alone")
